@@ -93,7 +93,68 @@ func collectAccesses(p *load.Program, l *an.Locksets, tracked map[string]bool) [
 	return out
 }
 
+// c10SharedConfig: configuration objects the program hands to a Transport or Dialer (*tls.Config) are shared by every
+// connection, opened from many goroutines: the library only writes to a private copy (Clone() or a fresh value).
+func c10SharedConfig(p *load.Program, r *oblig.Report) {
+	const rule = "C10.R6 shared configuration objects are only written through a private copy"
+	isTLSConfig := func(t types.Type) bool {
+		pt, ok := t.Underlying().(*types.Pointer)
+		return ok && an.NamedIs(pt.Elem(), "crypto/tls", "Config")
+	}
+	var private func(v ssa.Value, seen map[ssa.Value]bool) bool
+	private = func(v ssa.Value, seen map[ssa.Value]bool) bool {
+		if seen[v] {
+			return true
+		}
+		seen[v] = true
+		switch x := v.(type) {
+		case *ssa.Alloc:
+			return true
+		case *ssa.Call:
+			if sc := x.Call.StaticCallee(); sc != nil && an.RefFuncName(sc) == "Clone" {
+				return true
+			}
+			return false
+		case *ssa.Phi:
+			for _, e := range x.Edges {
+				if !private(e, seen) {
+					return false
+				}
+			}
+			return true
+		}
+		return false
+	}
+	n := 0
+	var bad []string
+	for _, fn := range p.EveryModuleFunction() {
+		for _, b := range fn.Blocks {
+			for _, ins := range b.Instrs {
+				st, ok := ins.(*ssa.Store)
+				if !ok {
+					continue
+				}
+				fa, ok := st.Addr.(*ssa.FieldAddr)
+				if !ok || !isTLSConfig(fa.X.Type()) {
+					continue
+				}
+				n++
+				if !private(fa.X, map[ssa.Value]bool{}) {
+					bad = append(bad, an.ShortFunc(fn)+" writes "+an.FieldName(fa.X.Type(), fa.Field)+" of a *tls.Config it did not copy at "+p.Pos(st.Pos()))
+				}
+			}
+		}
+	}
+	sort.Strings(bad)
+	r.Check(len(bad) == 0, rule, "every write to a *tls.Config goes to a Clone() or a fresh value", "-", fmt.Sprintf("%d writes examined", n), strings.Join(bad, "; "))
+	r.RequireCount(rule, n, 1)
+}
+
 func runC10(p *load.Program, r *oblig.Report) {
+	c10SharedConfig(p, r)
+	// batch.err is not guarded by a lock: it is published by the close of batch.done (store before close, loads after
+	// the receive), which is C01.R2
+	shareRules(r, "C10", "C10.R7 a batch result is handed over through the close of its done channel", func(sub *oblig.Report) { c01WaitBeforeRead(p, sub) })
 	const (
 		r1 = "C10.R1 access-discipline"
 		r2 = "C10.R2 every-mutable-field-classified"
